@@ -193,6 +193,7 @@ Leaf(id) ==
 (* grouping label lists: tokens between the parentheses, and the labels     *)
 GrpTable(g) ==
   CASE g = "none" -> [toks |-> <<>>, l |-> <<>>]
+    [] g = "empty" -> [toks |-> <<>>, l |-> <<>>]                          \* by () / without ()
     [] g = "a"    -> [toks |-> <<"a">>, l |-> <<"a">>]
     [] g = "ab"   -> [toks |-> <<"a", ",", "b">>, l |-> <<"a", "b">>]
     [] g = "a_tc" -> [toks |-> <<"a", ",">>, l |-> <<"a">>]                 \* trailing comma
